@@ -63,6 +63,17 @@ def record(src):
     from cirbo.core.circuit.operators import Undefined
 
     c = build(src)
+    if src.get('vs', 0) % 3 == 0 and len(c.gates) > 0:
+        # a circuit with a past: a gate was added on top of an existing one and removed again (bookkeeping such
+        # as an emptied users entry stays behind); the circuit itself is the same netlist as before
+        from cirbo.core.circuit import gate as G
+
+        base = list(c.gates)[(src.get('vs', 0) // 3) % len(c.gates)]
+        try:
+            c.emplace_gate('tmp_gate_of_the_past', G.NOT, (base,))
+            c.remove_gate('tmp_gate_of_the_past')
+        except Exception:
+            pass
     n = c.input_size
     labels = list(c.gates)
     res = {'full': {l: [] for l in labels}, 'circ': {l: [] for l in labels}, 'outs': {l: [] for l in dict.fromkeys(c.outputs)},
